@@ -8,6 +8,26 @@ NOTE = ("Trusted: Lean 4.33 kernel (axioms per theorem audited, allowed propext/
 CORR = ("Correspondence: Tie A certificates (every reachable state x 256 bytes x both anchorings of every real build, checked by the "
         "Lean-proved certOk against the ideal automaton / the noncontiguous NFA) and Tie B differential lines (harness vs acdrv).")
 CHECKS = {
+ "C07": ("proof",
+         "C07_stream_eq_iter / C07_stream_spec: for every non-empty pattern list without the empty pattern, every stream, every "
+         "schedule of read sizes (entries >= 1) and every buffer capacity (production default or max-pattern-length + spare, spare >= 1), "
+         "the transcription of Buffer{new,fill,roll} + StreamChunkIter::next on the ideal standard automaton yields exactly the matches "
+         "of the in-memory iterator = the specification's iterator, reports no I/O error and never calls read with an empty buffer. "
+         "Proved by an invariant over (buffer = last bytes read, absolute_pos, buffer_pos, reported_pos, automaton state = scan from the "
+         "last match end). Differential: schedule-driven reader against the real stream_find_iter under the cfg-guarded capacity hook "
+         "(all compositions of short streams, random schedules, production 64 KiB boundary).", "5 C07",
+         "Lean invariant proof of the stream state machine + schedule-enumerating differential under the capacity hook"),
+ "C08": ("proof",
+         "C08_chunks_concat: the chunks concatenate to the stream and each match chunk carries exactly the matched bytes; "
+         "C08_replace_eq: stream replace output and closure log equal replaceBytes (in-memory replace, C12) on the whole stream, for "
+         "every schedule and capacity. Differential on try_stream_replace_all(_with) with a collecting writer.", "5 C08",
+         "Lean proof (chunk specification + fold over chunks) + differential under the capacity hook"),
+ "C18": ("proof",
+         "C18_read_fault: with a read failure injected at any call index the yielded matches are a prefix of the fault-free sequence "
+         "(equal if no error surfaced), nothing panics (total model; roll's checked_sub is covered by the C07 invariant); "
+         "C18_write_fault: with a writer failing after l bytes the accepted bytes are a prefix of the fault-free output. "
+         "Fault-enumeration differential: every read-failure index and write limit on short streams x schedules x capacities.", "5 C18",
+         "Lean proof over the same stream invariant + fault-enumerating differential"),
  "C11": ("proof",
          "Finite facts over all 256 bytes by complete kernel evaluation (C11_fold_*, C11_opp_*: exactly A-Z/a-z fold, everything else "
          "fixed); tryFindFwd_comap: the case-insensitive searcher (automaton of folded patterns fed folded bytes) equals the search of "
